@@ -226,10 +226,21 @@ example : (runOps machine d18 20 (Run.init (State.create 1 2)) d18ops).log.rever
 example : (runOps Spec.machine d18 20 (Run.init (SState.create 1 2)) d18ops).log.reverse =
     [(0, 0), (1, 0), (1, 0), (1, 0), (1, 1)] := by decide
 
-example : (runOps machine d18 20 (Run.init (State.create 1 2)) d18ops).oof = false := by decide
-
-/-- the hypothesis of `never_after_disconnect_or_destroy` / `emit_refines_nested` is met by the
-    initial states (and, by `emit_refines_nested`, by everything reachable from them) -/
+/-- the hypothesis of `emit_refines_nested` is met by the initial states -/
 example : RunRel Sim [] (Run.init (State.create 3 3)) (Run.init (SState.create 3 3)) := init_rel 3 3
+
+/-- ... and by a state in the middle of an emission (one connection, its emission begun): the
+    hypotheses of `emit_refines_loop` and `never_after_disconnect_or_destroy` are met with a
+    non-empty stack and an actual invocation -/
+def midModel : State := (actBegin 0 0 (connect 0 0 0 0 (State.create 1 1))).1
+def midSpec : SState := (Spec.begin 0 0 (Spec.connect 0 0 0 0 (SState.create 1 1))).1
+
+example : Sim midModel midSpec [((0, 0), ((0, 0), [0]))] :=
+  sim_begin 0 0 (sim_connect 0 0 0 0 (sim_init 1 1) rfl rfl) rfl
+
+example : machine.next midModel 0 0 = .call 0 0 1 := rfl
+
+/-- the hypothesis of `fuel_irrelevant` is met by the D18 program with fuel 20 -/
+example : (runOps machine d18 20 (Run.init (State.create 1 2)) d18ops).oof = false := by decide
 
 end Nstd.Callback
